@@ -171,6 +171,18 @@ def gen_literal(rng):
         ip = gen_digits(rng, rng.choice([1, 1, 2, 5, 17, 20, 40, 309, 310, 400]), True)
     elif k < 0.3:
         ip = "0"
+    elif k < 0.5:
+        # 15..17 significant digits with a small power of ten: where a two-step conversion (integer to double, then
+        # scaling) rounds twice
+        nd = rng.choice([15, 16, 16, 16, 17])
+        ds = (rng.choice(["9", "9", "90", "900", "99"]) + gen_digits(rng, nd))[:nd]
+        if rng.random() < 0.7:
+            ds = ds[:-1] + rng.choice("13579")
+        cut = rng.randrange(0, nd + 1)
+        text = (ds[:cut] or "0") + ("." + ds[cut:] if cut < nd else "")
+        if rng.random() < 0.6:
+            text += rng.choice("eE") + rng.choice(["", "+", "-", "-"]) + str(rng.randrange(0, 26))
+        return underscores(rng, text) if rng.random() < 0.1 and "." not in text and "e" not in text.lower() else text
     else:
         ip = gen_digits(rng, rng.randrange(1, 20), True)
     text = underscores(rng, ip)
@@ -611,6 +623,30 @@ def run(rep):
                                   {"op": c["line"], "text": t, "impl": a})
             if a != m:
                 rep.disagreement(key, "%s: implementation and model differ" % kind, {"case": c, "impl": a, "model": m})
+
+    # ---------------- 3b. literals in delayed positions (bound lazily instead of evaluated in place)
+    WRAP = ["local x = %s; x", "[%s][0]", "{a: %s}.a", "(function(x) x)(%s)", "local f(x, y = %s) = y; f(0)",
+            "{a:: %s, b: self.a}.b", "[%s for i in [1]][0]", "{local v = %s, a: v}.a", "std.max(%s, 0)", "local x = [%s]; x[0]",
+            "(function(x) x)(x = %s)", "{[k]: %s for k in ['a']}.a", "({a: 0} + {a: %s}).a", "if true then %s else 0", "[0, %s][1]"]
+    over = [t for t in lseen if py_literal_value(t)[0] == "overflow"]
+    okl = [t for t in lseen if py_literal_value(t)[0] == "ok"]
+    rng.shuffle(over)
+    rng.shuffle(okl)
+    lazy = []
+    for t in over[: 40 * n_scale] + okl[: 40 * n_scale] + ["1e400", "0.1e+310", "1" + "0" * 309, "1.7976931348623159e308"]:
+        for w in (WRAP if t in ("1e400", "1.7976931348623159e308") else rng.sample(WRAP, 3)):
+            lazy.append((t, w % t))
+    lo = vlib.impl(["num lit " + vlib.hx(src) for _, src in lazy])
+    for (t, src), a in zip(lazy, lo):
+        rep.bump("literal-delayed")
+        exp = py_literal_value(t)
+        rep.count("lazy:" + src, True)
+        want = "ok %016x" % exp[1] if exp[0] == "ok" else "err NumberOverflow"
+        if a.startswith("panic") or a.startswith("crash"):
+            rep.violation(panic_key(a), "implementation panicked: " + a[:200], {"op": "num lit " + vlib.hx(src), "impl": a[:500]})
+        elif a != want:
+            rep.violation("literal-delayed:" + src, "literal %s in a delayed position (%s) gave %s, expected %s" % (t[:40], src[:60], a, want),
+                          {"op": "num lit " + vlib.hx(src), "literal": t, "src": src, "impl": a, "expected": want})
 
     # ---------------- 4. the same producers from literal source, manifested
     ev_lines = [vlib.eval_line(e["src"], mode="json") for e in evals]
